@@ -136,7 +136,14 @@ impl Kernel {
     fn proc_write(&mut self, pid: i32, fd: i32, data: &[u8]) -> Option<usize> {
         match self.try_write(pid, fd, data, None) {
             Ok(n) => {
-                *self.proc_mut(pid).tx_bytes.entry(fd).or_insert(0) += n as u64;
+                let p = self.proc_mut(pid);
+                *p.tx_bytes.entry(fd).or_insert(0) += n as u64;
+                if fd == 2 {
+                    let v = p.tx_data.entry(fd).or_default();
+                    if v.len() < (1 << 20) {
+                        v.extend_from_slice(&data[..n]);
+                    }
+                }
                 Some(n)
             }
             Err(Blk::Block) => Some(0),
